@@ -590,10 +590,10 @@ def oracle_json(a):
     try:
         if g.error is not None:
             return f"generation failed: {type(g.error).__name__}: {g.error}"
-        key = g.package.replace("_", "").lower()
+        key = g.output_package.split(".")[-1].replace("_", "").lower()
         roots = [c for n, c in g.classes().items() if n.replace("_", "").lower() == key]
         if len(roots) != 1:
-            return f"{len(roots)} generated classes answer to the document name {g.package}: {sorted(g.classes())}"
+            return f"{len(roots)} generated classes answer to the document name {g.output_package.split(".")[-1]}: {sorted(g.classes())}"
         ctx = XmlContext()
         for i, d in enumerate(docs):
             parser = JsonParser(context=ctx, config=strict_config())
